@@ -3,6 +3,7 @@ package main
 import (
 	"fmt"
 	"go/types"
+	"sort"
 	"strings"
 
 	"golang.org/x/tools/go/ssa"
@@ -221,6 +222,205 @@ func rulesC14(p *Prog, r *Report) {
 				pos = p.instrPos(blk.Instrs[len(blk.Instrs)-1])
 			}
 			r.Fail("R14.3", fname(w)+" cool-off", "collateral can be withdrawn after the cool-off period ended: success exit reachable without the test", pos, wit)
+		}
+	}
+
+	// R14.5 price-failure propagation ----------------------------------------------
+	// A function that (transitively) consults the oracle and reports an error must not
+	// have that error swallowed by a caller in message-handling code: the operation would
+	// go on although the price it needs is missing.
+	r.Rule("R14.5", "errors of oracle-dependent steps are not swallowed in message-handling code", 40)
+	{
+		priceMay := p.NewMay(func(c ssa.CallInstruction, callee *ssa.Function) bool {
+			return p.callIs(c, "GetTwa", "CalcAssetPrice", "GetLatestPrice") && (c.Common().IsInvoke() || (callee != nil && moduleOf(callee) == "market"))
+		})
+		var roots []*ssa.Function
+		for _, e := range p.MsgHandlers() {
+			roots = append(roots, e.Fn)
+		}
+		af := p.ApplyFunc()
+		unitClosure := map[*ssa.Function]bool{}
+		for _, u := range p.WorkUnits() {
+			if u.Closure != nil {
+				unitClosure[u.Closure] = true
+			}
+		}
+		msgReach := p.Reachable(roots, func(f *ssa.Function) bool { return p.isAuxFn(f) || unitClosure[f] })
+		inScope := map[string]bool{"vault": true, "locker": true, "lend": true, "liquidation": true, "liquidationsV2": true, "auction": true, "auctionsV2": true, "esm": true}
+		var fs []*ssa.Function
+		for f := range msgReach {
+			if inScope[moduleOf(f)] {
+				fs = append(fs, f)
+			}
+		}
+		sort.Slice(fs, func(i, j int) bool { return fname(fs[i]) < fname(fs[j]) })
+		for _, f := range fs {
+			n := map[string]int{}
+			for _, c := range calls(f) {
+				call, ok := c.(*ssa.Call)
+				if !ok || p.callIsFn(c, af) {
+					continue
+				}
+				// callee must be a comdex function with an error result that may consult the oracle
+				dep := false
+				for _, t := range p.Callees(c) {
+					if isComdexFn(t) && errResultIndex(t) >= 0 && priceMay.Fn(t) && !neverFails(t) {
+						dep = true
+					}
+				}
+				if !dep || p.callIs(c, "CalcAssetPrice", "GetLatestPrice", "CalculateCollateralizationRatio", "GetAmountOfOtherToken", "GetPriceForAsset", "VerifyCollaterlizationRatio", "VerifyCollateralizationRatio") {
+					continue // direct price helpers are R14.4's instances
+				}
+				r.Instance("R14.5")
+				r.FuncsSeen[fname(f)] = true
+				base := fmt.Sprintf("%s swallows error of %s", fname(f), callName(c))
+				n[base]++
+				construct := base
+				if n[base] > 1 {
+					construct = fmt.Sprintf("%s #%d", base, n[base])
+				}
+				if sw, pos := errorSwallowed(p, f, call); sw {
+					r.Fail("R14.5", construct, "the step consults the oracle price and can fail, but its failure is ignored or only logged here: with a missing or inactive price the operation continues instead of failing", pos, priceMay.Chain(f))
+				} else {
+					r.OK("R14.5", construct, "failure of an oracle-dependent step propagates", p.instrPos(c))
+				}
+			}
+		}
+	}
+
+	// R14.6 breaker identity ---------------------------------------------------------
+	// The app whose breaker/shutdown state is consulted must be the app of the position
+	// that is operated on: either the id comes from the stored record, or the function
+	// cannot succeed without an equality test between the record's app field and that id.
+	r.Rule("R14.6", "the app id used for the breaker lookup is tied to the operated position's stored app id", 10)
+	{
+		appField := map[string]string{"Vault": "AppId", "StableMintVault": "AppId", "LendAsset": "AppID", "Locker": "AppId"}
+		ops := p.operationalFns()
+		var fs []*ssa.Function
+		for f := range ops {
+			fs = append(fs, f)
+		}
+		sort.Slice(fs, func(i, j int) bool { return fname(fs[i]) < fname(fs[j]) })
+		norm := func(v ssa.Value) string {
+			var parts []string
+			for _, o := range p.Origins(v) {
+				// GetApp(id).Id is id
+				if o.Kind == "call" && p.callIs(o.Call, "GetApp") && len(o.Path) == 1 && o.Path[0] == "Id" {
+					args := callArgs(o.Call)
+					if len(args) >= 2 {
+						for _, o2 := range p.Origins(args[1]) {
+							parts = append(parts, o2.String())
+						}
+						continue
+					}
+				}
+				parts = append(parts, o.String())
+			}
+			sort.Strings(parts)
+			return strings.Join(parts, "|")
+		}
+		r146mods := map[string]bool{"vault": true, "locker": true, "lend": true, "liquidation": true, "liquidationsV2": true}
+		for _, f := range fs {
+			if !r146mods[moduleOf(f)] {
+				continue
+			}
+			// position records loaded in f
+			loaded := map[string]bool{}
+			for _, c := range calls(f) {
+				call, ok := c.(*ssa.Call)
+				if !ok {
+					continue
+				}
+				t := call.Type()
+				if tup, ok := t.(*types.Tuple); ok && tup.Len() > 0 {
+					t = tup.At(0).Type()
+				}
+				if n := namedTypeName(t); appField[n] != "" && strings.HasPrefix(callName(c), "x/") || appField[namedTypeName(t)] != "" && c.Common().IsInvoke() {
+					loaded[namedTypeName(t)] = true
+				}
+			}
+			if len(loaded) == 0 {
+				continue
+			}
+			for _, c := range calls(f) {
+				if !p.callIs(c, "GetKillSwitchData") {
+					continue
+				}
+				args := callArgs(c)
+				if len(args) < 2 {
+					continue
+				}
+				x := args[1]
+				r.Instance("R14.6")
+				r.FuncsSeen[fname(f)] = true
+				construct := fname(f) + " breaker app id"
+				// (a) from the record itself
+				fromRecord := true
+				os := p.Origins(x)
+				for _, o := range os {
+					if len(o.Path) == 0 {
+						fromRecord = false
+						break
+					}
+					last := o.Path[len(o.Path)-1]
+					if last != "AppId" && last != "AppID" {
+						fromRecord = false
+						break
+					}
+					if o.Kind == "param" {
+						if pr, ok := o.Val.(*ssa.Parameter); ok && msgParam(f) == pr {
+							fromRecord = false
+							break
+						}
+					}
+				}
+				if fromRecord && len(os) > 0 {
+					r.OK("R14.6", construct, "breaker looked up under the stored app id of the record", p.instrPos(c))
+					continue
+				}
+				xs := norm(x)
+				g := &GuardSpec{
+					Name: "record app id == breaker app id",
+					Local: func(fn *ssa.Function, cond ssa.Value) (bool, bool) {
+						a := p.Atom(cond)
+						if !a.IsCmp || (a.Op != "==" && a.Op != "!=") || a.X == nil || a.Y == nil {
+							return false, false
+						}
+						isRec := func(v ssa.Value) bool {
+							t, fld, _, ok := fieldRead(v)
+							return ok && appField[t] == fld && loaded[t]
+						}
+						var other ssa.Value
+						switch {
+						case isRec(a.X):
+							other = a.Y
+						case isRec(a.Y):
+							other = a.X
+						default:
+							return false, false
+						}
+						if !(sameValue(other, x) || norm(other) == xs) {
+							return false, false
+						}
+						eq := a.Op == "=="
+						if a.Neg {
+							eq = !eq
+						}
+						if eq {
+							return true, false
+						}
+						return false, true
+					},
+				}
+				ok, blk, w := p.guardedTargets(g, f, nil, 0)
+				if ok {
+					r.OK("R14.6", construct, "function cannot succeed without record app id == breaker app id", p.instrPos(c))
+				} else {
+					pos := p.instrPos(c)
+					_ = blk
+					r.Fail("R14.6", construct, "the circuit breaker is consulted for an app id taken from the message, and the function can succeed without that id having been compared with the stored app id of the position it operates on: naming another app bypasses the breaker", pos, w)
+				}
+			}
 		}
 	}
 
